@@ -239,5 +239,26 @@ pub fn generate(seed: u64, thorough: bool, sink: &mut Sink) -> Vec<String> {
       }
     }
   }
+  // rationals a binary64 cannot tell apart (they differ by less than half an ulp, or have terms beyond 2^53):
+  // the six comparisons are exact on them.  Comparisons only — arithmetic on such terms leaves i64.
+  {
+    let close: [&[&str]; 4] = [&["1/3", "6004799503160661/18014398509481984", "6004799503160663/18014398509481984"],
+      &["9007199254740993/1", "9007199254740992/1", "9007199254740991/1"],
+      &["1/10", "3602879701896397/36028797018963968", "3602879701896399/36028797018963968"],
+      &["4611686018427387903/4611686018427387904", "4611686018427387902/4611686018427387904", "4611686018427387901/4611686018427387904"]];
+    let forms: [((usize, usize, bool), (usize, usize, bool)); 5] = [((1, 1, true), (1, 1, true)), ((1, 1, true), (2, 2, false)), ((2, 2, false), (1, 1, true)), ((2, 2, false), (2, 2, false)), ((1, 3, false), (1, 3, false))];
+    for op in ["lt", "le", "gt", "ge", "eq", "ne"] {
+      for (lf, rf) in forms.iter() {
+        for _ in 0..(if thorough { 6 } else { 2 }) {
+          let fam = *rng.pick(&close);
+          let mut mk = |f: &(usize, usize, bool), rng: &mut Rng| -> String {
+            let els: Vec<String> = (0..f.0 * f.1).map(|_| (*rng.pick(fam)).to_string()).collect();
+            if f.2 { format!("S|{}", els[0]) } else { format!("M|{}|{}|{}", f.0, f.1, els.join(" ")) } };
+          let (a, b) = (mk(lf, &mut rng), mk(rf, &mut rng));
+          cases.push(format!("binop\t{}\tr64\t{}\t{}\t{}", op, a, b, *rng.pick(&["var", "ll", "mut"]))); sink.hit("rational-close");
+        }
+      }
+    }
+  }
   cases
 }
